@@ -1,11 +1,613 @@
 package main
 
+// Engine path: generated flows made of contact-changing actions, run through the REAL engine (NewSession / Resume)
+// with manual and msg triggers, msg / wait-timeout / run-expiration resumes, with and without a refreshed contact.
+// After every engine call:
+//   - direct oracle of C03: replaying sprint.Events() over the session contact as it was before the call gives the
+//     session contact afterwards (marshalled JSON; last-seen from the received message);
+//   - direct oracle of C06: every query based group contains the contact iff Group.CheckQueryBasedMembership; a contact
+//     the sprint made non-active is in no static group; the contact_groups_changed events account for the change;
+//   - one correspondence case for model/Modifiers.v run_sprint: the kind of call and the modifiers of the executed
+//     actions (derived from the flow definition, cross-checked against Sprint.Modifiers()).
+
 import (
 	"encoding/json"
+	"fmt"
+	"os"
+	"strings"
+	"time"
+
+	"github.com/nyaruka/gocommon/dates"
+	"github.com/nyaruka/gocommon/urns"
+	"github.com/nyaruka/goflow/envs"
+	"github.com/nyaruka/goflow/excellent/types"
+	"github.com/nyaruka/goflow/flows"
+	"github.com/nyaruka/goflow/flows/resumes"
+	"github.com/nyaruka/goflow/flows/triggers"
 
 	"verifharness/pkg/hx"
 )
 
-func runSprints(o *hx.Opts, res *hx.Result, r *hx.Rand, sh *sharder) {}
+type nodeSpec struct {
+	Actions []*modSpec `json:"actions"`
+	Wait    string     `json:"wait,omitempty"` // "" | "msg" | "msg_timeout"
+}
 
-func replaySprint(res *hx.Result, raw json.RawMessage, sh *sharder) {}
+type resumeSpec struct {
+	Kind    string       `json:"kind"` // msg | timeout | expiration
+	Refresh *contactSpec `json:"refresh,omitempty"`
+}
+
+type sprintInput struct {
+	Universe *uniSpec     `json:"universe"`
+	Contact  *contactSpec `json:"contact"`
+	Nodes    []nodeSpec   `json:"nodes"`
+	Trigger  string       `json:"trigger"` // manual | msg
+	Resumes  []resumeSpec `json:"resumes"`
+}
+
+var dtProbeEnv = envs.NewBuilder().WithDateFormat(envs.DateFormatYearMonthDay).Build()
+
+const sprintFlowUUID = "70000000-0000-4000-8000-000000000001"
+
+func nodeUUID(i int) string { return fmt.Sprintf("71000000-0000-4000-8000-%012d", i+1) }
+func exitUUID(i, k int) string {
+	return fmt.Sprintf("72000000-0000-4000-8000-%06d%06d", i+1, k+1)
+}
+func catUUID(i, k int) string {
+	return fmt.Sprintf("73000000-0000-4000-8000-%06d%06d", i+1, k+1)
+}
+func actionUUID(i, k int) string {
+	return fmt.Sprintf("74000000-0000-4000-8000-%06d%06d", i+1, k+1)
+}
+
+var actionSchemes = map[string]bool{"tel": true, "telegram": true, "mailto": true, "whatsapp": true, "facebook": true, "twitterid": true}
+
+// actionMod is the modifier the action built from m hands to applyModifier (actions trim their evaluated values; an
+// open_ticket without topic falls back to the topic named General)
+func actionMod(m *modSpec) *modSpec {
+	out := *m
+	switch m.Kind {
+	case "name", "field":
+		out.Text = strings.TrimSpace(m.Text)
+	case "ticket":
+		out.Text = strings.TrimSpace(m.Text)
+		if m.Topic < 0 {
+			out.Topic = 0
+		}
+	}
+	return &out
+}
+
+func (u *universe) actionJSON(i, k int, m *modSpec) map[string]any {
+	a := map[string]any{"uuid": actionUUID(i, k)}
+	groupRefs := func() []any {
+		gs := []any{}
+		for _, g := range m.Groups {
+			gs = append(gs, map[string]any{"uuid": groupUUID(g), "name": u.spec.Groups[g].Name})
+		}
+		return gs
+	}
+	switch m.Kind {
+	case "name":
+		a["type"], a["name"] = "set_contact_name", m.Text
+	case "language":
+		a["type"], a["language"] = "set_contact_language", m.Text
+	case "status":
+		a["type"], a["status"] = "set_contact_status", m.Text
+	case "timezone":
+		a["type"], a["timezone"] = "set_contact_timezone", m.Text
+	case "field":
+		f := fieldDefs[m.Field]
+		a["type"], a["field"], a["value"] = "set_contact_field", map[string]any{"key": f.Key, "name": strings.ToUpper(f.Key[:1]) + f.Key[1:]}, m.Text
+	case "groups":
+		if m.Mode == "add" {
+			a["type"], a["groups"] = "add_contact_groups", groupRefs()
+		} else if m.Mode == "remove_all" {
+			a["type"], a["groups"], a["all_groups"] = "remove_contact_groups", []any{}, true
+		} else {
+			a["type"], a["groups"], a["all_groups"] = "remove_contact_groups", groupRefs(), false
+		}
+	case "urns":
+		parts := strings.SplitN(m.URNs[0], ":", 2)
+		a["type"], a["scheme"], a["path"] = "add_contact_urn", parts[0], parts[1]
+	case "channel":
+		a["type"] = "set_contact_channel"
+		if m.Channel >= 0 {
+			a["channel"] = map[string]any{"uuid": channelDefs[m.Channel].UUID, "name": fmt.Sprintf("Ch%d", m.Channel)}
+		}
+	case "ticket":
+		a["type"], a["body"], a["result_name"] = "open_ticket", m.Text, "ticket"
+		if m.Topic >= 0 {
+			a["topic"] = map[string]any{"uuid": topicUUIDs[m.Topic], "name": []string{"General", "Support"}[m.Topic]}
+		}
+		if m.Assignee >= 0 {
+			a["assignee"] = map[string]any{"email": userEmails[m.Assignee], "name": []string{"Ann", "Ben"}[m.Assignee]}
+		}
+	}
+	return a
+}
+
+// the modifier spec as the model sees it: "remove_all" names the static groups in asset order
+func (u *universe) modelMod(m *modSpec) *modSpec {
+	out := actionMod(m)
+	if m.Kind == "groups" && m.Mode == "remove_all" {
+		out.Mode = "remove"
+		out.Groups = nil
+		for i, g := range u.spec.Groups {
+			if g.Query == "" {
+				out.Groups = append(out.Groups, i)
+			}
+		}
+	}
+	return out
+}
+
+func (u *universe) flowJSON(nodes []nodeSpec) json.RawMessage {
+	ns := []any{}
+	for i, n := range nodes {
+		var dest any
+		if i+1 < len(nodes) {
+			dest = nodeUUID(i + 1)
+		}
+		acts := []any{}
+		for k, m := range n.Actions {
+			acts = append(acts, u.actionJSON(i, k, m))
+		}
+		node := map[string]any{"uuid": nodeUUID(i), "actions": acts}
+		if n.Wait == "" {
+			node["exits"] = []any{map[string]any{"uuid": exitUUID(i, 0), "destination_uuid": dest}}
+		} else {
+			wait := map[string]any{"type": "msg"}
+			cats := []any{map[string]any{"uuid": catUUID(i, 0), "name": "All Responses", "exit_uuid": exitUUID(i, 0)}}
+			exits := []any{map[string]any{"uuid": exitUUID(i, 0), "destination_uuid": dest}}
+			if n.Wait == "msg_timeout" {
+				wait["timeout"] = map[string]any{"seconds": 600, "category_uuid": catUUID(i, 1)}
+				cats = append(cats, map[string]any{"uuid": catUUID(i, 1), "name": "No Response", "exit_uuid": exitUUID(i, 1)})
+				exits = append(exits, map[string]any{"uuid": exitUUID(i, 1), "destination_uuid": dest})
+			}
+			node["router"] = map[string]any{"type": "switch", "wait": wait, "operand": "@input.text", "cases": []any{},
+				"categories": cats, "default_category_uuid": catUUID(i, 0), "result_name": fmt.Sprintf("r%d", i)}
+			node["exits"] = exits
+		}
+		ns = append(ns, node)
+	}
+	b, err := json.Marshal(map[string]any{"uuid": sprintFlowUUID, "name": "Contact Flow", "spec_version": "13.1.0", "language": "eng",
+		"type": "messaging", "nodes": ns})
+	if err != nil {
+		panic(err)
+	}
+	return b
+}
+
+// ---- generators -----------------------------------------------------------------------------------------
+
+func genAction(r *hx.Rand, u *uniSpec, c *contactSpec) *modSpec {
+	for {
+		m := genModifier(r, u, c)
+		switch m.Kind {
+		case "name":
+			if strings.Contains(m.Text, "@") {
+				continue
+			}
+		case "field":
+			// inside a session the environment's timezone follows the contact's, so what a datetime text parses to
+			// depends on the contact at that moment; the model's value parsers are functions of the text only:
+			// keep datetime-parsable texts to the directly applied modifiers (fixed environment)
+			if _, xerr := types.ToXDateTimeWithTimeFill(dtProbeEnv, types.NewXText(strings.TrimSpace(m.Text))); xerr == nil || strings.Contains(m.Text, "@") {
+				continue
+			}
+		case "language":
+			if m.Text == "kin" && r.Bool() {
+				m.Text = "fra"
+			}
+		case "urns":
+			var pick string
+			for try := 0; try < 8 && pick == ""; try++ {
+				s := hx.Pick(r, append(append([]string{}, goodURNs...), "telegram:abc", "tel:+593 979 111111", "mailto:notanemail", "tel:0979111111"))
+				parts := strings.SplitN(s, ":", 2)
+				if len(parts) == 2 && actionSchemes[parts[0]] && strings.TrimSpace(parts[1]) == parts[1] && parts[1] != "" && !strings.Contains(s, "@(") {
+					pick = s
+				}
+			}
+			if pick == "" || strings.Contains(pick, "@") {
+				pick = "telegram:67890"
+			}
+			m.Mode, m.URNs = "append", []string{pick}
+		case "groups":
+			if m.Mode == "remove" && r.Chance(1, 4) {
+				m.Mode, m.Groups = "remove_all", nil
+			}
+		}
+		return m
+	}
+}
+
+// contacts that travel through contact_refreshed events are re-read from JSON (flows.ReadContact), which rejects
+// invalid URNs: contacts of the engine path hold valid URNs only (invalid stored URNs stay with the direct path)
+func validURNsOnly(c *contactSpec) *contactSpec {
+	var us []string
+	for _, s := range c.URNs {
+		if urns.URN(s).Validate() == nil {
+			us = append(us, s)
+		}
+	}
+	c.URNs = us
+	return c
+}
+
+func genSprintInput(r *hx.Rand) *sprintInput {
+	uni := genUniverse(r, true)
+	uni.UseLoc = true
+	// a group on last_seen_on / tickets / urns more often: these change by routes other than set_contact_field
+	if r.Chance(1, 2) {
+		q := hx.Pick(r, []qdef{{`last_seen_on != ""`, "QLastSeenSet"}, {`tickets > 0`, "QHasTicket"}, {`telegram != ""`, "QHasScheme 2"},
+			{`last_seen_on = ""`, "QLastSeenUnset"}, {`language = "fra"`, "QLangIs 2"}, {`name = "bob"`, "QNameIs " + textCoq("bob")}})
+		uni.Groups = append(uni.Groups, groupSpec{Name: fmt.Sprintf("X%d", len(uni.Groups)), Query: q.q, Coq: q.coq})
+	}
+	in := &sprintInput{Universe: uni, Trigger: hx.Pick(r, []string{"manual", "msg", "msg"})}
+	in.Contact = validURNsOnly(genContact(r, uni))
+	if r.Chance(1, 2) {
+		in.Contact.LastSeen = ""
+	}
+	nn := r.Range(0, 5)
+	if r.Chance(1, 15) {
+		nn = 0
+	}
+	for i := 0; i < nn; i++ {
+		n := nodeSpec{}
+		na := r.Range(0, 3)
+		for k := 0; k < na; k++ {
+			n.Actions = append(n.Actions, genAction(r, uni, in.Contact))
+		}
+		if r.Chance(1, 2) {
+			n.Wait = hx.Pick(r, []string{"msg", "msg", "msg_timeout"})
+		}
+		in.Nodes = append(in.Nodes, n)
+	}
+	for i, n := range in.Nodes {
+		if n.Wait == "" || (i == 0 && in.Trigger == "msg") {
+			continue
+		}
+		rs := resumeSpec{Kind: "msg"}
+		if n.Wait == "msg_timeout" && r.Chance(1, 2) {
+			rs.Kind = "timeout"
+		}
+		if r.Chance(1, 10) {
+			rs.Kind = "expiration"
+		}
+		if r.Chance(2, 5) {
+			rs.Refresh = validURNsOnly(genContact(r, uni))
+			if r.Chance(1, 3) { // a refreshed contact equal to what the caller would have stored: no contact_refreshed
+				rs.Refresh = nil
+				rs.Kind += "+same"
+			}
+		}
+		in.Resumes = append(in.Resumes, rs)
+		if strings.HasPrefix(rs.Kind, "expiration") {
+			break
+		}
+	}
+	return in
+}
+
+// ---- running --------------------------------------------------------------------------------------------
+
+var sprintBase = time.Date(2024, 5, 6, 8, 0, 0, 0, time.UTC)
+
+type sprintObs struct {
+	idx       int
+	class     string // computed from the input: which kind of engine call
+	pre       map[string]any
+	preC      *flows.Contact // clone of the session contact before the call
+	refreshC  *flows.Contact // untouched copy of the refreshed contact handed in, if any
+	inputTime *time.Time     // when the received message came in (trigger.triggered_on / resume.resumed_on)
+	kind      string         // start-empty | start | resume
+	acts      []*modSpec     // model modifiers of the executed actions, in order
+}
+
+func runSprintCase(res *hx.Result, in *sprintInput, sh *sharder) error {
+	in.Universe.UseLoc = true
+	u0, err := buildUniverse(in.Universe, nil)
+	if err != nil {
+		return err
+	}
+	u, err := buildUniverse(in.Universe, []json.RawMessage{u0.flowJSON(in.Nodes)})
+	if err != nil {
+		return err
+	}
+	flow, err := u.sa.Flows().Get(sprintFlowUUID)
+	if err != nil {
+		return err
+	}
+	dates.SetNowFunc(dates.NewFixedNow(sprintBase))
+	defer dates.SetNowFunc(dates.NewFixedNow(fixedNow))
+	resetUUIDs()
+	contact, err := u.buildContact(in.Contact)
+	if err != nil {
+		return err
+	}
+
+	// which nodes each engine call executes: up to and including the next waiting node
+	next := 0
+	segment := func() []*modSpec {
+		var acts []*modSpec
+		for next < len(in.Nodes) {
+			n := in.Nodes[next]
+			next++
+			for _, m := range n.Actions {
+				acts = append(acts, u.modelMod(m))
+			}
+			// a msg wait on the very first node of a session started by a msg trigger is fulfilled by that message
+			if n.Wait != "" && !(in.Trigger == "msg" && next == 1) {
+				break
+			}
+		}
+		return acts
+	}
+	msgIn := func() *flows.MsgIn {
+		return flows.NewMsgIn(flows.MsgUUID("90000000-0000-4000-8000-000000000001"), urns.NilURN, nil, "hello", nil)
+	}
+
+	// ---- start
+	obs := &sprintObs{idx: 0, class: "sprint:start-" + in.Trigger, pre: toMap(contact), preC: contact.Clone(), kind: "start"}
+	var trigger flows.Trigger
+	tb := triggers.NewBuilder(u.baseEnv, flow.Reference(false), contact)
+	if in.Trigger == "msg" {
+		t := tb.Msg(msgIn()).Build()
+		trigger = t
+		if len(in.Nodes) > 0 {
+			when := t.TriggeredOn()
+			obs.inputTime = &when
+		}
+	} else {
+		trigger = tb.Manual().Build()
+	}
+	if len(in.Nodes) == 0 {
+		obs.kind = "start-empty"
+		obs.class += ":empty-flow"
+	}
+	session, sprint, err := u.eng.NewSession(u.sa, trigger)
+	if err != nil {
+		return err
+	}
+	obs.acts = segment()
+	finishSprint(res, u, in, obs, session, sprint, sh)
+
+	// ---- resumes
+	for i, rs := range in.Resumes {
+		if session.Status() != flows.SessionStatusWaiting {
+			break
+		}
+		dates.SetNowFunc(dates.NewFixedNow(sprintBase.Add(time.Duration(i+1) * time.Hour)))
+		kind := strings.TrimSuffix(rs.Kind, "+same")
+		obs := &sprintObs{idx: i + 1, class: "sprint:resume-" + kind, pre: toMap(session.Contact()), preC: session.Contact().Clone(), kind: "resume"}
+		var refresh *flows.Contact
+		if rs.Refresh != nil {
+			if refresh, err = u.buildContact(rs.Refresh); err != nil {
+				return err
+			}
+			obs.refreshC, _ = u.buildContact(rs.Refresh)
+			obs.class += "+refreshed-contact"
+		} else if strings.HasSuffix(rs.Kind, "+same") {
+			refresh = session.Contact().Clone()
+			obs.refreshC = session.Contact().Clone()
+			obs.class += "+same-contact"
+		}
+		var resume flows.Resume
+		switch kind {
+		case "msg":
+			rm := resumes.NewMsg(nil, refresh, msgIn())
+			when := rm.ResumedOn()
+			obs.inputTime = &when
+			resume = rm
+		case "timeout":
+			resume = resumes.NewWaitTimeout(nil, refresh)
+		default:
+			resume = resumes.NewRunExpiration(nil, refresh)
+		}
+		sprint, err := session.Resume(resume)
+		if err != nil {
+			return err
+		}
+		if kind == "expiration" {
+			next = len(in.Nodes)
+		} else {
+			obs.acts = segment()
+		}
+		finishSprint(res, u, in, obs, session, sprint, sh)
+	}
+	return nil
+}
+
+var statePaths = []string{"Rwanda > Kigali City", "Rwanda > Eastern Province"}
+var districtPaths = []string{"Rwanda > Kigali City > Gasabo", "Rwanda > Kigali City > Nyarugenge", "Rwanda > Eastern Province > Rwamagana"}
+
+// recordParsesAllParents fills the parse tables for (field, raw) under every parent location the contact could hold at
+// the time the action runs
+func (u *universe) recordParsesAllParents(tb *tables, field int, raw string) {
+	parents := []string{""}
+	parentKey := ""
+	switch fieldDefs[field].Type {
+	case "ward":
+		parents, parentKey = append(parents, districtPaths...), "district"
+	case "district":
+		parents, parentKey = append(parents, statePaths...), "state"
+	}
+	for _, p := range parents {
+		scratch, err := u.buildContact(&contactSpec{Status: "active", Fields: map[string]string{}})
+		if err != nil {
+			panic(err)
+		}
+		if p != "" {
+			pf := u.sa.Fields().Get(parentKey)
+			scratch.Fields().Set(pf, scratch.Fields().Parse(u.env, u.sa.Fields(), pf, p))
+		}
+		tb.recordParse(u.env, scratch, field, raw)
+	}
+}
+
+func finishSprint(res *hx.Result, u *universe, in *sprintInput, obs *sprintObs, session flows.Session, sprint flows.Sprint, sh *sharder) {
+	post := toMap(session.Contact())
+	var eventsJS []map[string]any
+	for _, e := range sprint.Events() {
+		eventsJS = append(eventsJS, toMap(e))
+	}
+	inputTime := ""
+	if obs.inputTime != nil {
+		inputTime = obs.inputTime.UTC().Format(time.RFC3339Nano)
+	}
+	where := fmt.Sprintf("engine call %d (%s)", obs.idx, obs.class)
+
+	if res.Property == "C06" {
+		res.OracleChecks += 3
+		// "Whenever the engine hands back a session ... the contact belongs to a query-based group exactly when it is
+		//  active and the group's query matches"
+		if errs := u.membershipErrors(session.Contact()); len(errs) > 0 {
+			res.Fail(obs.class+":membership-differs-from-query", in, fmt.Sprintf("after %s: %v", where, errs))
+		}
+		// "a contact that becomes non-active also leaves all its static groups": the sprint itself changed the status
+		becameInactive := false
+		for _, e := range eventsJS {
+			switch e["type"] {
+			case "contact_status_changed":
+				becameInactive = e["status"] != "active"
+			case "contact_refreshed":
+				becameInactive = false
+			}
+		}
+		if becameInactive && session.Contact().Status() != flows.ContactStatusActive {
+			if st := staticGroupsOf(u, session.Contact()); len(st) > 0 {
+				res.Fail(obs.class+":static-groups-kept-by-non-active-contact", in, fmt.Sprintf("after %s the contact is %s and still in static groups %v", where, session.Contact().Status(), st))
+			}
+		}
+		// "Every membership change made to get there is reported in a contact_groups_changed event"
+		if !groupEventsAccountForChange(obs.pre, post, eventsJS) {
+			res.Fail(obs.class+":membership-change-not-reported", in, fmt.Sprintf("%s: groups before %v, after %v", where, obs.pre["groups"], post["groups"]))
+		}
+	} else {
+		res.OracleChecks++
+		// "replaying the emitted events in order over the contact as it was before ... reproduces exactly the contact
+		//  afterwards"
+		if got := replayAll(obs.pre, eventsJS, inputTime); !sameContact(got, post) {
+			res.Fail(obs.class+":replay-differs", in, fmt.Sprintf("%s: replaying %d event(s) over %s gives %s, the session contact is %s", where, len(eventsJS), brief(obs.pre), brief(got), brief(post)))
+		}
+	}
+
+	// ---- correspondence case
+	it := newInterner()
+	tb := &tables{u: u, in: it, consts: map[int]bool{}}
+	pre := canonContact(it, obs.preC)
+	kind := "KStartEmpty"
+	tcoq := "None"
+	if obs.inputTime != nil {
+		tcoq = fmt.Sprintf("(Some %d)", instantID(it, *obs.inputTime))
+	}
+	switch obs.kind {
+	case "start":
+		kind = "KStart " + tcoq
+	case "resume":
+		r := "None"
+		if obs.refreshC != nil {
+			r = "(Some (" + canonContact(it, obs.refreshC).coq() + "))"
+		}
+		kind = fmt.Sprintf("KResume %s %s", r, tcoq)
+	}
+	postC := canonContact(it, session.Contact())
+	// the ticket a ticket action of this sprint opened (at most one can succeed per sprint)
+	fresh := it.id("ticket:fresh-unused")
+	if postC.Ticket != nil {
+		fresh = postC.Ticket[0]
+	}
+	var acts []string
+	for _, m := range obs.acts {
+		if m.Kind == "field" {
+			u.recordParsesAllParents(tb, m.Field, m.Text)
+		}
+		acts = append(acts, fmt.Sprintf("(%d, %s)", fresh, u.modCoq(it, m)))
+	}
+	evs := []string{}
+	for _, e := range sprint.Events() {
+		if s := u.canonEvent(it, e, obs.inputTime); s != "" {
+			evs = append(evs, s)
+		}
+	}
+	tc, _ := tb.coq()
+	coq := fmt.Sprintf("{| s_tables := %s;\n    s_contact := %s;\n    s_kind := %s;\n    s_acts := [%s];\n    s_o_contact := %s;\n    s_o_events := %s |}",
+		tc, pre.coq(), kind, strings.Join(acts, "; "), postC.coq(), coqEvents(evs))
+	impl := map[string]any{"call": obs.idx, "events": eventsJS, "contact": post, "modifiers_applied": len(sprint.Modifiers())}
+	sh.add(coq, map[string]any{"sprint_input": in, "call": obs.idx}, impl)
+
+	res.Dist(obs.class)
+	if len(sprint.Modifiers()) != len(obs.acts) {
+		res.Dist("sprint:modifier-count-differs-from-flow-definition")
+	}
+	nontrivial := len(obs.acts) > 0 || len(evs) > 0
+	key, _ := json.Marshal(map[string]any{"in": in, "call": obs.idx})
+	res.Eval(string(key), nontrivial)
+	if nontrivial {
+		res.Dist("sprint:contact-steps-ran")
+	}
+	if res.Evaluations%211 == 3 {
+		res.Sample(map[string]any{"sprint_input": in, "call": obs.idx, "observed": impl})
+	}
+}
+
+// corpus: F6a (msg trigger, no last_seen_on, group last_seen_on != "") and neighbours, always first
+func sprintCorpus() []*sprintInput {
+	uni := &uniSpec{MaxChars: 640, UseLoc: true, Groups: []groupSpec{{Name: "S0"}, {Name: "S1"},
+		{Name: "Q0", Query: `last_seen_on != ""`, Coq: "QLastSeenSet"}, {Name: "Q1", Query: `tickets > 0`, Coq: "QHasTicket"},
+		{Name: "Q2", Query: `name = "bob"`, Coq: "QNameIs " + hx.Str("bob")}, {Name: "Q3", Query: `telegram != ""`, Coq: "QHasScheme 2"}}}
+	jim := func() *contactSpec {
+		return &contactSpec{Name: "Jim", Lang: "eng", Status: "active", Groups: []int{0}, Fields: map[string]string{}}
+	}
+	wrong := jim()
+	wrong.Groups = []int{0, 4, 2} // stored membership wrong: in Q2 (name = bob) and Q0 (last seen) without qualifying
+	refreshed := &contactSpec{Name: "Bob", Lang: "fra", Status: "active", Groups: []int{1}, Fields: map[string]string{}, URNs: []string{"telegram:12345"}}
+	blocked := &contactSpec{Name: "Bob", Lang: "fra", Status: "blocked", Groups: []int{1, 4}, Fields: map[string]string{}}
+	return []*sprintInput{
+		{Universe: uni, Contact: jim(), Trigger: "msg", Nodes: []nodeSpec{{Wait: "msg"}}, Resumes: []resumeSpec{{Kind: "msg"}}},
+		{Universe: uni, Contact: jim(), Trigger: "msg", Nodes: []nodeSpec{{Actions: []*modSpec{{Kind: "name", Text: "Bob"}}}}},
+		{Universe: uni, Contact: jim(), Trigger: "msg", Nodes: nil},
+		{Universe: uni, Contact: wrong, Trigger: "manual", Nodes: []nodeSpec{{Actions: []*modSpec{{Kind: "language", Text: "eng"}}, Wait: "msg_timeout"}, {Actions: []*modSpec{{Kind: "ticket", Topic: -1, Assignee: 0, Text: " help "}}}},
+			Resumes: []resumeSpec{{Kind: "timeout", Refresh: refreshed}}},
+		{Universe: uni, Contact: jim(), Trigger: "manual", Nodes: []nodeSpec{{Actions: []*modSpec{{Kind: "groups", Mode: "add", Groups: []int{0, 1}}}, Wait: "msg"},
+			{Actions: []*modSpec{{Kind: "status", Text: "stopped"}, {Kind: "groups", Mode: "add", Groups: []int{1}}}, Wait: "msg"}, {Actions: []*modSpec{{Kind: "urns", Mode: "append", URNs: []string{"telegram:777"}}}}},
+			Resumes: []resumeSpec{{Kind: "msg", Refresh: blocked}, {Kind: "msg+same"}}},
+		{Universe: uni, Contact: jim(), Trigger: "msg", Nodes: []nodeSpec{{Wait: "msg"}, {Actions: []*modSpec{{Kind: "groups", Mode: "remove_all"}}}}, Resumes: []resumeSpec{{Kind: "expiration", Refresh: refreshed}}},
+	}
+}
+
+func runSprints(o *hx.Opts, res *hx.Result, r *hx.Rand, sh *sharder) {
+	run := func(in *sprintInput) {
+		if err := runSprintCase(res, in, sh); err != nil {
+			res.Dist("sprint:skipped-unbuildable")
+			if o.Verbose {
+				fmt.Fprintln(os.Stderr, "skip sprint:", err)
+			}
+		}
+	}
+	for _, in := range sprintCorpus() {
+		run(in)
+	}
+	n := o.Count(350, 12000)
+	for i := 0; i < n; i++ {
+		run(genSprintInput(r))
+	}
+}
+
+func replaySprint(res *hx.Result, raw json.RawMessage, sh *sharder) {
+	var wrap struct {
+		In *sprintInput `json:"sprint_input"`
+	}
+	if err := json.Unmarshal(raw, &wrap); err != nil || wrap.In == nil {
+		in := &sprintInput{}
+		if err := json.Unmarshal(raw, in); err != nil {
+			panic(err)
+		}
+		wrap.In = in
+	}
+	if err := runSprintCase(res, wrap.In, sh); err != nil {
+		panic(err)
+	}
+}
